@@ -89,6 +89,12 @@ def accept(ctx, files, want=modelled, nshards=None, timeout=1500):
             m = None
             for ln in r.printed:
                 m = re.match(r'<<"MAXL", (\d+), (\d+)>>', ln) or m
+            if r.error == "timeout":
+                # refuting a trace means exhausting every behaviour of the model that matches its prefix; when that search does not
+                # finish within the budget the question stays open: reported as drift (informational), the observers' verdicts stand
+                drifts.append({"run": json.loads(exs[0][0]).get("run"), "record": "acceptance UNDECIDED: TLC's search for a matching behaviour of the model did not finish within %d s "
+                               "(%d execution(s) from this one on left unjudged by the model)" % (timeout, len(exs)), "after": "", "line_in_execution": 0})
+                break
             if r.error or m is None:
                 sys.stdout.write(r.out[-2500:])
                 raise vlib.Infra("trace acceptance run failed (%s): %s" % (tag, r.error))
@@ -124,7 +130,7 @@ def with_steps(scns, every=1, limit=None):
 
 def check(ctx, files):
     """Acceptance of the recorded executions by HtpParser.tla; rejections become MODEL-DRIFT lines (ctx.drift).  Returns coverage fields."""
-    acc, tot, drifts = accept(ctx, files, timeout=1500 if ctx.quick else 5000)
+    acc, tot, drifts = accept(ctx, files, timeout=900 if ctx.quick else 5000)
     for d in drifts:
         ctx.drift.append("execution %s is not a behaviour of spec/HtpParser.tla: the model cannot follow record %d %s (after %s)" % (d["run"], d["line_in_execution"], d["record"][:160], d["after"][:120]))
     ctx.log("model acceptance (HtpParser.tla TSpec): %d of %d execution(s) accepted, %d drift(s)" % (acc, tot, len(drifts)))
